@@ -72,5 +72,28 @@ def residual (B : Bal α) : List (V3 α × V3 α) → α
     let r := V3.sub (B.apply s) d
     V3.dot r r + residual B rest
 
+/-! ### round 2: array layouts and the ColorCorrection pipeline -/
+
+/-- `apply_balance` on a flat N×3 array -/
+def applyFlat (B : Bal α) (l : List (V3 α)) : List (V3 α) := l.map B.apply
+/-- `apply_balance` on an R×C×3 array (e.g. the 4×6×3 swatch layout, or an image): numpy broadcasts over the
+leading axes, the matrix acts on the last axis -/
+def applyGrid (B : Bal α) (g : List (List (V3 α))) : List (List (V3 α)) := g.map fun row => row.map B.apply
+
+/-- `reshape((-1, C, 3))` of a flat array: rows of length `n` (fuel = number of elements) -/
+def chunkAux {β : Type} (n : Nat) : Nat → List β → List (List β)
+  | 0, _ => []
+  | fuel + 1, l => if l.isEmpty then [] else l.take n :: chunkAux n fuel (l.drop n)
+def chunk {β : Type} (n : Nat) (l : List β) : List (List β) := chunkAux n l.length l
+
+/-- `ColorCorrection.correct_array` with `balancing = "darsia"`: an AdaptiveBalance gets (optionally) a diagonal stage
+fitted on the grey row `swatches[-1]` and then a linear / affine stage fitted on the colour rows `swatches[:-1]`
+(pre-balanced by the first stage); the accumulated balance is applied to every pixel. The two fitted stages are given. -/
+def pipelineStages (whitebalancing : Bool) (wb col : Stage α) : List (Stage α) :=
+  if whitebalancing then [wb, col] else [col]
+
+def pipeline (whitebalancing : Bool) (wb col : Stage α) (img : List (List (V3 α))) : List (List (V3 α)) :=
+  applyGrid (runCode (pipelineStages whitebalancing wb col)) img
+
 end ops
 end Darsia.Balance
